@@ -230,9 +230,10 @@ fn same_commands(got: &[hyeong::core::code::UnOptCode], cmds: &[RCmd], sig: &str
     ensure!(got.len() == cmds.len(), sig, "{}: {} commands read back, {} written", what, got.len(), cmds.len());
     for (i, (g, c)) in got.iter().zip(cmds.iter()).enumerate() {
         let want_area = c.tree().prefix();
-        let got_area = format!("{:?}", g.get_area());
+        let got_tree = RArea::from_impl(g.get_area());
+        let got_area = got_tree.prefix();
         ensure!(
-            g.get_type() == c.kind && g.get_hangul_count() == c.h && g.get_dot_count() == c.d && got_area == want_area,
+            g.get_type() == c.kind && g.get_hangul_count() == c.h && g.get_dot_count() == c.d && got_tree == c.tree(),
             sig,
             "{}: command {} read back as {}_{}_{} {} but was written as {}_{}_{} {}",
             what,
